@@ -206,6 +206,31 @@ class Support(Target):
         return [("mean1", lambda x: x[:, 1], 0.5, self.s)]
 
 
+class TailPrior(Target):
+    """Standard-normal prior through the inverse CDF, likelihood far in the prior's tail: the posterior lives at
+    u0 ~ 1e-14, i.e. closer to a cube face than any fixed epsilon a library might clip with."""
+
+    def __init__(self, loc=-8.3, s=0.3):
+        self.name = "tailprior"
+        self.n_dim = 2
+        self.loc, self.s = loc, s
+        prec = 1.0 + 1.0 / s ** 2
+        self.pm = (loc / s ** 2) / prec
+        self.psd = math.sqrt(1.0 / prec)
+        # Z = N(loc; 0, 1 + s^2) for coordinate 0, second coordinate: likelihood N(x1;0,1) x prior N(0,1) -> N(0; 0, 2)
+        self.logz = float(stats.norm.logpdf(loc, 0, math.sqrt(1 + s ** 2)) + stats.norm.logpdf(0, 0, math.sqrt(2)))
+
+    def prior_transform(self, u):
+        return special.ndtri(np.asarray(u, float))
+
+    def loglike(self, x):
+        x = np.asarray(x)
+        return stats.norm.logpdf(x[..., 0], self.loc, self.s) + stats.norm.logpdf(x[..., 1], 0.0, 1.0)
+
+    def functionals(self):
+        return [("mean0", lambda x: x[:, 0], self.pm, self.psd), ("mean1", lambda x: x[:, 1], 0.0, math.sqrt(0.5))]
+
+
 def make(name, **kw):
     return {
         "gauss2": lambda: GaussBox(2, **kw),
@@ -217,4 +242,5 @@ def make(name, **kw):
         "vonmises": lambda: VonMises(**kw),
         "vonmises_hard": lambda: VonMises(declare_periodic=False, **kw),
         "support": lambda: Support(**kw),
+        "tailprior": lambda: TailPrior(**kw),
     }[name]()
